@@ -37,7 +37,7 @@ MANIFEST = {
             "ZeroDivisionError branches, taken exactly where total weight 0 is satisfiable) that shares sum "
             "to D, are proportional, lie in [0, D], aggregates stay in the children's range and the "
             "fallback values are exactly 1.0 / 0.0; edit histories (state change, add, remove child) in "
-            "between two writes.",
+            "between two writes. Enumerated next to it (concrete, reported as such): 288 tiny/huge IEEE magnitude states, where the real-number model cannot see overflow.",
     "note": "floats are exact reals: 'up to rounding' is proved as exact equality over R; child count is "
             "bounded; child values assumed >= 0 (documented pool model)",
     "design_ref": "DESIGN.md §3 C07",
